@@ -386,7 +386,7 @@ func spineCase(c *Config, front bool, k int, v valueFn, every int, model bool) {
 			break
 		}
 	}
-	g.churn(k / 4)
+	g.churn(minInt(k/4, 20000))
 	for g.length > 0 && len(g.rc.ops) < 3*k {
 		d := minInt(g.length, 1+k/16)
 		pos := 0
@@ -536,14 +536,18 @@ func scaleFamily(c *Config) {
 	scaleCase(c, shapes[r.Intn(4)], 65537+r.Intn(5000), 1, 16000, val(), 50000, false)
 	spineCase(c, false, 500, val(), 500, true)
 	spineCase(c, true, 500, val(), 500, true)
-	spineCase(c, false, 3000, val(), 1000, !quick)
-	spineCase(c, true, 3000, val(), 1000, !quick)
+	spineCase(c, false, 3000, val(), 1000, false)
+	spineCase(c, true, 3000, val(), 1000, false)
+	if !quick {
+		spineCase(c, false, 1500, val(), 500, true)
+		spineCase(c, true, 1500, val(), 500, true)
+	}
 	spineCase(c, false, 70000, val(), 50000, false)
 	if !quick {
 		for _, sh := range shapes {
-			scaleCase(c, sh, 100000, 1+r.Intn(2), 100000, val(), 50000, false)
+			scaleCase(c, sh, 100000, 1+r.Intn(2), 60000, val(), 50000, false)
 		}
-		scaleCase(c, shapes[r.Intn(4)], 1000000, 1, 100000, val(), 400000, false)
+		scaleCase(c, shapes[r.Intn(4)], 1000000, 1, 24000, val(), 400000, false)
 		spineCase(c, false, 1000000, val(), 500000, false)
 		spineCase(c, true, 30000, val(), 10000, false)
 	}
@@ -552,8 +556,8 @@ func scaleFamily(c *Config) {
 		hugeManyCase(c, n0, 20, false, 1)
 		hugeManyCase(c, n0, 5+r.Intn(40), true, 1)
 	}
-	hugeManyCase(c, 3000000000, c.Count(120, 1000), false, 100)
-	hugeManyCase(c, 1<<31+1, c.Count(120, 1000), false, 100)
+	hugeManyCase(c, 3000000000, c.Count(120, 400), false, 100)
+	hugeManyCase(c, 1<<31+1, c.Count(120, 400), false, 100)
 }
 
 // values at the machine limits: around 2^14 (the mark / the first author bit), 2^15, 2^16, 2^31 and the largest
